@@ -52,3 +52,369 @@ impl R {
     #[verifier::external_body] pub fn min(self, o: R) -> (r: R) ensures r.v@ == (if self.v@ <= o.v@ { self.v@ } else { o.v@ }) { unimplemented!() }
     #[verifier::external_body] pub fn max(self, o: R) -> (r: R) ensures r.v@ == (if self.v@ >= o.v@ { self.v@ } else { o.v@ }) { unimplemented!() }
 }
+
+// ---- specification vocabulary (exact real geometry) -----------------------------------------------------------------
+pub open spec fn vx(c: Coord<R>) -> real { c.x.v@ }
+pub open spec fn vy(c: Coord<R>) -> real { c.y.v@ }
+pub open spec fn rmin(a: real, b: real) -> real { if a <= b { a } else { b } }
+pub open spec fn rmax(a: real, b: real) -> real { if a >= b { a } else { b } }
+pub open spec fn same_pt(a: Coord<R>, b: Coord<R>) -> bool { vx(a) == vx(b) && vy(a) == vy(b) }
+
+// the point of segment a1 -> a2 at parameter s
+pub open spec fn seg_x(a1: Coord<R>, a2: Coord<R>, s: real) -> real { vx(a1) + s * (vx(a2) - vx(a1)) }
+pub open spec fn seg_y(a1: Coord<R>, a2: Coord<R>, s: real) -> real { vy(a1) + s * (vy(a2) - vy(a1)) }
+
+// the two closed segments have a common point, at parameter s on the first and t on the second
+pub open spec fn meet(a1: Coord<R>, a2: Coord<R>, b1: Coord<R>, b2: Coord<R>, s: real, t: real) -> bool {
+    &&& 0real <= s <= 1real
+    &&& 0real <= t <= 1real
+    &&& seg_x(a1, a2, s) == seg_x(b1, b2, t)
+    &&& seg_y(a1, a2, s) == seg_y(b1, b2, t)
+}
+
+// p lies in the bounding box of segment a1 a2
+pub open spec fn in_bb(p: Coord<R>, a1: Coord<R>, a2: Coord<R>) -> bool {
+    &&& rmin(vx(a1), vx(a2)) <= vx(p) <= rmax(vx(a1), vx(a2))
+    &&& rmin(vy(a1), vy(a2)) <= vy(p) <= rmax(vy(a1), vy(a2))
+}
+
+pub open spec fn is_at(p: Coord<R>, a1: Coord<R>, a2: Coord<R>, s: real) -> bool {
+    vx(p) == seg_x(a1, a2, s) && vy(p) == seg_y(a1, a2, s)
+}
+
+// the point at parameter s of the first segment also lies on the second
+pub open spec fn on_both(a1: Coord<R>, a2: Coord<R>, b1: Coord<R>, b2: Coord<R>, s: real) -> bool {
+    exists|t: real| #[trigger] meet(a1, a2, b1, b2, s, t)
+}
+
+// What an exact intersection routine must answer (statement of C16):
+//   None          <=> the segments have no common point
+//   Point(p)      <=> they have exactly one common point, and it is p
+//   Overlap(p, q) <=> their common points are exactly the sub-segment from p to q of positive length
+//                     (parameters u1 < u2 on the first segment)
+pub open spec fn exact_answer(a1: Coord<R>, a2: Coord<R>, b1: Coord<R>, b2: Coord<R>, res: LineIntersection) -> bool {
+    match res {
+        LineIntersection::None => forall|s: real, t: real| !#[trigger] meet(a1, a2, b1, b2, s, t),
+        LineIntersection::Point(p) => {
+            &&& exists|s: real, t: real| #[trigger] meet(a1, a2, b1, b2, s, t) && is_at(p, a1, a2, s)
+            &&& forall|s: real, t: real| #[trigger] meet(a1, a2, b1, b2, s, t) ==> is_at(p, a1, a2, s)
+        }
+        LineIntersection::Overlap(p, q) => exists|u1: real, u2: real| {
+            &&& 0real <= u1 < u2 <= 1real
+            &&& #[trigger] is_at(p, a1, a2, u1) && #[trigger] is_at(q, a1, a2, u2)
+            &&& forall|s: real, t: real| #[trigger] meet(a1, a2, b1, b2, s, t) ==> u1 <= s <= u2
+            &&& forall|s: real| u1 <= s <= u2 ==> #[trigger] on_both(a1, a2, b1, b2, s)
+        },
+    }
+}
+
+// ---- algebra (plain reals) ----------------------------------------------------------------------------------------------
+// u = direction of the first segment, w = of the second, e = b1 - a1, k = u x w.
+// A common point at parameters (s, t) means  s*u - t*w == e.
+
+pub proof fn lemma_cancel(a: real, k: real)
+    requires a * k == 0real, k != 0real,
+    ensures a == 0real,
+{
+    assert(a == 0real) by(nonlinear_arith) requires a * k == 0real, k != 0real;
+}
+
+// small ring identities (Z3's nonlinear real solver does not terminate on the 8-variable cubic identities below in
+// one piece, so they are chained from these)
+pub proof fn p_dist(a: real, b: real, c: real)
+    ensures (a - b) * c == a * c - b * c, c * (a - b) == c * a - c * b,
+{
+    assert((a - b) * c == a * c - b * c) by(nonlinear_arith);
+    assert(c * (a - b) == c * a - c * b) by(nonlinear_arith);
+}
+
+pub proof fn p_assoc(a: real, b: real, c: real)
+    ensures (a * b) * c == a * (b * c), (a * b) * c == (a * c) * b, a * b == b * a,
+{
+    assert((a * b) * c == a * (b * c)) by(nonlinear_arith);
+    assert((a * b) * c == (a * c) * b) by(nonlinear_arith);
+    assert(a * b == b * a) by(nonlinear_arith);
+}
+
+pub proof fn lemma_params_unique(ux: real, uy: real, wx: real, wy: real, ex: real, ey: real, s: real, t: real)
+    requires s * ux - t * wx == ex, s * uy - t * wy == ey,
+    ensures
+        s * (ux * wy - uy * wx) == ex * wy - ey * wx,
+        t * (ux * wy - uy * wx) == ex * uy - ey * ux,
+{
+    // ex*wy - ey*wx
+    p_dist(s * ux, t * wx, wy);       // ex*wy == (s*ux)*wy - (t*wx)*wy
+    p_dist(s * uy, t * wy, wx);       // ey*wx == (s*uy)*wx - (t*wy)*wx
+    p_assoc(t, wx, wy);               // (t*wx)*wy == (t*wy)*wx
+    p_assoc(s, ux, wy);               // (s*ux)*wy == s*(ux*wy)
+    p_assoc(s, uy, wx);
+    p_dist(ux * wy, uy * wx, s);      // s*(ux*wy - uy*wx) == s*(ux*wy) - s*(uy*wx)
+    assert(s * (ux * wy - uy * wx) == ex * wy - ey * wx);
+    // ex*uy - ey*ux
+    p_dist(s * ux, t * wx, uy);       // ex*uy == (s*ux)*uy - (t*wx)*uy
+    p_dist(s * uy, t * wy, ux);       // ey*ux == (s*uy)*ux - (t*wy)*ux
+    p_assoc(s, ux, uy);               // (s*ux)*uy == (s*uy)*ux
+    p_assoc(t, wx, uy);               // (t*wx)*uy == t*(wx*uy)
+    p_assoc(t, wy, ux);               // (t*wy)*ux == t*(wy*ux)
+    p_assoc(wy, ux, 1real);
+    p_assoc(wx, uy, 1real);
+    p_assoc(ux, wy, 1real);
+    p_assoc(uy, wx, 1real);
+    p_dist(ux * wy, uy * wx, t);      // t*(ux*wy - uy*wx) == t*(ux*wy) - t*(uy*wx)
+    assert(t * (ux * wy - uy * wx) == ex * uy - ey * ux);
+}
+
+pub proof fn lemma_params_exist(ux: real, uy: real, wx: real, wy: real, ex: real, ey: real, k: real, s: real, t: real)
+    requires
+        k == ux * wy - uy * wx, k != 0real,
+        s * k == ex * wy - ey * wx,
+        t * k == ex * uy - ey * ux,
+    ensures s * ux - t * wx == ex, s * uy - t * wy == ey,
+{
+    // X := s*ux - t*wx - ex ;  X*k == (s*k)*ux - (t*k)*wx - ex*k == (ex*wy - ey*wx)*ux - (ex*uy - ey*ux)*wx - ex*(ux*wy - uy*wx) == 0
+    let x = s * ux - t * wx - ex;
+    p_dist(s * ux - t * wx, ex, k);
+    p_dist(s * ux, t * wx, k);
+    p_assoc(s, ux, k);                // (s*ux)*k == (s*k)*ux
+    p_assoc(t, wx, k);                // (t*wx)*k == (t*k)*wx
+    assert(x * k == (s * k) * ux - (t * k) * wx - ex * k);
+    p_dist(ex * wy, ey * wx, ux);     // (ex*wy - ey*wx)*ux
+    p_dist(ex * uy, ey * ux, wx);     // (ex*uy - ey*ux)*wx
+    p_dist(ux * wy, uy * wx, ex);     // ex*(ux*wy - uy*wx)
+    p_assoc(ex, wy, ux);              // (ex*wy)*ux == ex*(wy*ux)
+    p_assoc(ey, wx, ux);              // (ey*wx)*ux == (ey*ux)*wx
+    p_assoc(ex, uy, wx);              // (ex*uy)*wx == ex*(uy*wx)
+    p_assoc(wy, ux, 1real);
+    assert(x * k == 0real);
+    lemma_cancel(x, k);
+    let y = s * uy - t * wy - ey;
+    p_dist(s * uy - t * wy, ey, k);
+    p_dist(s * uy, t * wy, k);
+    p_assoc(s, uy, k);
+    p_assoc(t, wy, k);
+    assert(y * k == (s * k) * uy - (t * k) * wy - ey * k);
+    p_dist(ex * wy, ey * wx, uy);     // (ex*wy - ey*wx)*uy
+    p_dist(ex * uy, ey * ux, wy);     // (ex*uy - ey*ux)*wy
+    p_dist(ux * wy, uy * wx, ey);     // ey*(ux*wy - uy*wx)
+    p_assoc(ex, wy, uy);              // (ex*wy)*uy == (ex*uy)*wy
+    p_assoc(ey, wx, uy);              // (ey*wx)*uy == ey*(wx*uy)
+    p_assoc(ey, ux, wy);              // (ey*ux)*wy == ey*(ux*wy)
+    p_assoc(wx, uy, 1real);
+    assert(y * k == 0real);
+    lemma_cancel(y, k);
+}
+
+// direction / offset vectors of a configuration
+pub open spec fn ux_(a1: Coord<R>, a2: Coord<R>) -> real { vx(a2) - vx(a1) }
+pub open spec fn uy_(a1: Coord<R>, a2: Coord<R>) -> real { vy(a2) - vy(a1) }
+pub open spec fn kross_(a1: Coord<R>, a2: Coord<R>, b1: Coord<R>, b2: Coord<R>) -> real {
+    ux_(a1, a2) * uy_(b1, b2) - uy_(a1, a2) * ux_(b1, b2)
+}
+
+// meet <=> parameter equation
+pub proof fn lemma_meet_eq(a1: Coord<R>, a2: Coord<R>, b1: Coord<R>, b2: Coord<R>, s: real, t: real)
+    ensures
+        meet(a1, a2, b1, b2, s, t) <==> (0real <= s <= 1real && 0real <= t <= 1real
+            && s * ux_(a1, a2) - t * ux_(b1, b2) == vx(b1) - vx(a1)
+            && s * uy_(a1, a2) - t * uy_(b1, b2) == vy(b1) - vy(a1)),
+{
+}
+
+// non-parallel segments: the supporting lines meet in exactly one parameter pair (s, t)
+pub proof fn lemma_nonparallel(a1: Coord<R>, a2: Coord<R>, b1: Coord<R>, b2: Coord<R>, s: real, t: real)
+    requires
+        kross_(a1, a2, b1, b2) != 0real,
+        s * kross_(a1, a2, b1, b2) == (vx(b1) - vx(a1)) * uy_(b1, b2) - (vy(b1) - vy(a1)) * ux_(b1, b2),
+        t * kross_(a1, a2, b1, b2) == (vx(b1) - vx(a1)) * uy_(a1, a2) - (vy(b1) - vy(a1)) * ux_(a1, a2),
+    ensures
+        0real <= s <= 1real && 0real <= t <= 1real ==> meet(a1, a2, b1, b2, s, t),
+        seg_x(a1, a2, s) == seg_x(b1, b2, t) && seg_y(a1, a2, s) == seg_y(b1, b2, t),
+        forall|s2: real, t2: real| #[trigger] meet(a1, a2, b1, b2, s2, t2) ==> s2 == s && t2 == t,
+{
+    let (ux, uy, wx, wy) = (ux_(a1, a2), uy_(a1, a2), ux_(b1, b2), uy_(b1, b2));
+    let (ex, ey) = (vx(b1) - vx(a1), vy(b1) - vy(a1));
+    let k = kross_(a1, a2, b1, b2);
+    lemma_params_exist(ux, uy, wx, wy, ex, ey, k, s, t);
+    lemma_meet_eq(a1, a2, b1, b2, s, t);
+    assert forall|s2: real, t2: real| #[trigger] meet(a1, a2, b1, b2, s2, t2) implies s2 == s && t2 == t by {
+        lemma_meet_eq(a1, a2, b1, b2, s2, t2);
+        lemma_params_unique(ux, uy, wx, wy, ex, ey, s2, t2);
+        assert((s2 - s) * k == 0real) by(nonlinear_arith) requires s2 * k == ex * wy - ey * wx, s * k == ex * wy - ey * wx;
+        lemma_cancel(s2 - s, k);
+        assert((t2 - t) * k == 0real) by(nonlinear_arith) requires t2 * k == ex * uy - ey * ux, t * k == ex * uy - ey * ux;
+        lemma_cancel(t2 - t, k);
+    }
+}
+
+// parallel but not collinear: no common point
+pub proof fn lemma_parallel_disjoint(a1: Coord<R>, a2: Coord<R>, b1: Coord<R>, b2: Coord<R>)
+    requires
+        kross_(a1, a2, b1, b2) == 0real,
+        (vx(b1) - vx(a1)) * uy_(a1, a2) - (vy(b1) - vy(a1)) * ux_(a1, a2) != 0real,
+    ensures forall|s: real, t: real| !#[trigger] meet(a1, a2, b1, b2, s, t),
+{
+    let (ux, uy, wx, wy) = (ux_(a1, a2), uy_(a1, a2), ux_(b1, b2), uy_(b1, b2));
+    let (ex, ey) = (vx(b1) - vx(a1), vy(b1) - vy(a1));
+    assert forall|s: real, t: real| !#[trigger] meet(a1, a2, b1, b2, s, t) by {
+        if meet(a1, a2, b1, b2, s, t) {
+            lemma_meet_eq(a1, a2, b1, b2, s, t);
+            lemma_params_unique(ux, uy, wx, wy, ex, ey, s, t);
+            assert(t * (ux * wy - uy * wx) == 0real) by(nonlinear_arith) requires ux * wy - uy * wx == 0real;
+        }
+    }
+}
+
+pub proof fn p_distp(a: real, b: real, c: real)
+    ensures (a + b) * c == a * c + b * c, c * (a + b) == c * a + c * b,
+{
+    assert((a + b) * c == a * c + b * c) by(nonlinear_arith);
+    assert(c * (a + b) == c * a + c * b) by(nonlinear_arith);
+}
+
+// a vector (ex, ey) parallel to u = (ux, uy) != 0 is its own projection:  e == ((u.e)/(u.u)) * u
+pub proof fn lemma_proj(ux: real, uy: real, ex: real, ey: real, l: real, sa: real)
+    requires ex * uy == ey * ux, l == ux * ux + uy * uy, l != 0real, sa * l == ux * ex + uy * ey,
+    ensures ex == sa * ux, ey == sa * uy,
+{
+    // (ex - sa*ux) * l == 0
+    p_dist(ex, sa * ux, l);
+    p_assoc(sa, ux, l);                       // (sa*ux)*l == (sa*l)*ux
+    p_distp(ux * ux, uy * uy, ex);            // ex*l == ex*(ux*ux) + ex*(uy*uy)
+    p_distp(ux * ex, uy * ey, ux);            // (sa*l)*ux == (ux*ex)*ux + (uy*ey)*ux
+    p_assoc(ux, ex, ux);                      // (ux*ex)*ux == ux*(ex*ux) == (ux*ux)*ex
+    p_assoc(ex, ux, ux);
+    p_assoc(ux * ux, ex, 1real);
+    p_assoc(ex, uy, uy);                      // (ex*uy)*uy == ex*(uy*uy)
+    p_assoc(ey, ux, uy);                      // (ey*ux)*uy == (ey*uy)*ux
+    p_assoc(uy, ey, 1real);
+    p_assoc(uy, ey, ux);
+    assert(ex * (ux * ux) == (ux * ex) * ux);
+    assert(ex * (uy * uy) == (uy * ey) * ux);
+    assert((ex - sa * ux) * l == 0real);
+    lemma_cancel(ex - sa * ux, l);
+    // (ey - sa*uy) * l == 0
+    p_dist(ey, sa * uy, l);
+    p_assoc(sa, uy, l);
+    p_distp(ux * ux, uy * uy, ey);            // ey*l == ey*(ux*ux) + ey*(uy*uy)
+    p_distp(ux * ex, uy * ey, uy);            // (sa*l)*uy == (ux*ex)*uy + (uy*ey)*uy
+    p_assoc(uy, ey, uy);
+    p_assoc(ey, uy, uy);
+    p_assoc(uy * uy, ey, 1real);
+    p_assoc(ey, ux, ux);                      // (ey*ux)*ux == ey*(ux*ux)
+    p_assoc(ex, uy, ux);                      // (ex*uy)*ux == (ex*ux)*uy
+    p_assoc(ux, ex, 1real);
+    p_assoc(ux, ex, uy);
+    assert(ey * (uy * uy) == (uy * ey) * uy);
+    assert(ey * (ux * ux) == (ux * ex) * uy);
+    assert((ey - sa * uy) * l == 0real);
+    lemma_cancel(ey - sa * uy, l);
+}
+
+pub proof fn lemma_sq_pos(ux: real, uy: real)
+    requires ux != 0real || uy != 0real,
+    ensures ux * ux + uy * uy > 0real,
+{
+    assert(ux * ux >= 0real) by(nonlinear_arith);
+    assert(uy * uy >= 0real) by(nonlinear_arith);
+    if ux != 0real { assert(ux * ux > 0real) by(nonlinear_arith) requires ux != 0real; }
+    if uy != 0real { assert(uy * uy > 0real) by(nonlinear_arith) requires uy != 0real; }
+}
+
+// 0 <= t <= 1  ==>  t*d lies between 0 and d
+pub proof fn lemma_scale_between(t: real, d: real)
+    requires 0real <= t <= 1real,
+    ensures rmin(0real, d) <= t * d <= rmax(0real, d),
+{
+    assert(rmin(0real, d) <= t * d <= rmax(0real, d)) by(nonlinear_arith) requires 0real <= t <= 1real;
+}
+
+// collinear segments: parameters of the second segment's ends on the first are sa and sb = sa + d, and the common
+// points are exactly  s == sa + t*d
+pub proof fn lemma_collinear(a1: Coord<R>, a2: Coord<R>, b1: Coord<R>, b2: Coord<R>, sa: real, sb: real)
+    requires
+        !same_pt(a1, a2), !same_pt(b1, b2),
+        kross_(a1, a2, b1, b2) == 0real,
+        (vx(b1) - vx(a1)) * uy_(a1, a2) - (vy(b1) - vy(a1)) * ux_(a1, a2) == 0real,
+        sa * (ux_(a1, a2) * ux_(a1, a2) + uy_(a1, a2) * uy_(a1, a2)) == ux_(a1, a2) * (vx(b1) - vx(a1)) + uy_(a1, a2) * (vy(b1) - vy(a1)),
+        (sb - sa) * (ux_(a1, a2) * ux_(a1, a2) + uy_(a1, a2) * uy_(a1, a2)) == ux_(a1, a2) * ux_(b1, b2) + uy_(a1, a2) * uy_(b1, b2),
+    ensures
+        sa != sb,
+        forall|s: real, t: real| 0real <= s <= 1real && 0real <= t <= 1real ==> (#[trigger] meet(a1, a2, b1, b2, s, t) <==> s == sa + t * (sb - sa)),
+{
+    let (ux, uy, wx, wy) = (ux_(a1, a2), uy_(a1, a2), ux_(b1, b2), uy_(b1, b2));
+    let (ex, ey) = (vx(b1) - vx(a1), vy(b1) - vy(a1));
+    let l = ux * ux + uy * uy;
+    let d = sb - sa;
+    lemma_sq_pos(ux, uy);
+    lemma_proj(ux, uy, ex, ey, l, sa);
+    p_assoc(wx, uy, 1real);
+    p_assoc(uy, wx, 1real);
+    assert(wx * uy == wy * ux);
+    lemma_proj(ux, uy, wx, wy, l, d);
+    if d == 0real {
+        assert(wx == 0real) by(nonlinear_arith) requires wx == d * ux, d == 0real;
+        assert(wy == 0real) by(nonlinear_arith) requires wy == d * uy, d == 0real;
+        assert(false);
+    }
+    assert forall|s: real, t: real| 0real <= s <= 1real && 0real <= t <= 1real implies (#[trigger] meet(a1, a2, b1, b2, s, t) <==> s == sa + t * d) by {
+        lemma_meet_eq(a1, a2, b1, b2, s, t);
+        let z = s - t * d - sa;
+        // s*ux - t*wx - ex == z*ux  and likewise for y
+        p_assoc(t, d, ux);                    // (t*d)*ux == t*(d*ux)
+        p_assoc(t, d, uy);
+        p_dist(s - t * d, sa, ux);
+        p_dist(s, t * d, ux);
+        p_dist(s - t * d, sa, uy);
+        p_dist(s, t * d, uy);
+        assert(s * ux - t * wx - ex == z * ux);
+        assert(s * uy - t * wy - ey == z * uy);
+        if z == 0real {
+            assert(z * ux == 0real) by(nonlinear_arith) requires z == 0real;
+            assert(z * uy == 0real) by(nonlinear_arith) requires z == 0real;
+        } else {
+            if ux != 0real { assert(z * ux != 0real) by(nonlinear_arith) requires z != 0real, ux != 0real; }
+            if uy != 0real { assert(z * uy != 0real) by(nonlinear_arith) requires z != 0real, uy != 0real; }
+        }
+    }
+}
+
+// on collinear segments the common parameters on the first segment are [0,1] intersected with [smin, smax]
+pub proof fn lemma_collinear_range(a1: Coord<R>, a2: Coord<R>, b1: Coord<R>, b2: Coord<R>, sa: real, sb: real)
+    requires
+        sa != sb,
+        forall|s: real, t: real| 0real <= s <= 1real && 0real <= t <= 1real ==> (#[trigger] meet(a1, a2, b1, b2, s, t) <==> s == sa + t * (sb - sa)),
+    ensures
+        forall|s: real, t: real| #[trigger] meet(a1, a2, b1, b2, s, t) ==> rmin(sa, sb) <= s <= rmax(sa, sb),
+        forall|s: real| 0real <= s <= 1real && rmin(sa, sb) <= s <= rmax(sa, sb) ==> #[trigger] on_both(a1, a2, b1, b2, s),
+{
+    let d = sb - sa;
+    assert forall|s: real, t: real| #[trigger] meet(a1, a2, b1, b2, s, t) implies rmin(sa, sb) <= s <= rmax(sa, sb) by {
+        lemma_scale_between(t, d);
+    }
+    assert forall|s: real| 0real <= s <= 1real && rmin(sa, sb) <= s <= rmax(sa, sb) implies #[trigger] on_both(a1, a2, b1, b2, s) by {
+        let t = (s - sa) / d;
+        assert(t * d == s - sa) by(nonlinear_arith) requires t == (s - sa) / d, d != 0real;
+        assert(0real <= t <= 1real) by(nonlinear_arith) requires t * d == s - sa, d != 0real, rmin(sa, sa + d) <= s <= rmax(sa, sa + d);
+        assert(meet(a1, a2, b1, b2, s, t));
+    }
+}
+
+// a point of a segment lies in the segment's bounding box
+pub proof fn lemma_seg_in_box(a1: Coord<R>, a2: Coord<R>, s: real)
+    requires 0real <= s <= 1real,
+    ensures
+        rmin(vx(a1), vx(a2)) <= seg_x(a1, a2, s) <= rmax(vx(a1), vx(a2)),
+        rmin(vy(a1), vy(a2)) <= seg_y(a1, a2, s) <= rmax(vy(a1), vy(a2)),
+{
+    lemma_scale_between(s, vx(a2) - vx(a1));
+    lemma_scale_between(s, vy(a2) - vy(a1));
+}
+
+// a common point lies in both boxes
+pub proof fn lemma_meet_in_boxes(a1: Coord<R>, a2: Coord<R>, b1: Coord<R>, b2: Coord<R>, s: real, t: real, p: Coord<R>)
+    requires meet(a1, a2, b1, b2, s, t), is_at(p, a1, a2, s),
+    ensures in_bb(p, a1, a2), in_bb(p, b1, b2),
+{
+    lemma_seg_in_box(a1, a2, s);
+    lemma_seg_in_box(b1, b2, t);
+}
